@@ -1,6 +1,7 @@
 package models
 
 import (
+	"go/types"
 	"math/big"
 
 	"verif/internal/absint"
@@ -236,8 +237,21 @@ func ReduceSaturated() *Set {
 	}{{FieldPkg + ".reduceSaturated", sym.Fp}, {Mod + ".reduceSaturated", sym.Fn}} {
 		srt := e.srt
 		s.Intercepts[e.name] = func(ex *absint.Exec, c *absint.CallCtx) (absint.Val, bool) {
-			dst, src := ptrArg(ex, c, 0), ptrArg(ex, c, 1)
-			if dst == nil || src == nil {
+			// shapes: (dst, src) flag; in place (l) flag; by value (src) (limbs, flag)
+			var dst, src *absint.Ptr
+			byValue := false
+			switch {
+			case len(c.Args) == 2:
+				dst, src = ptrArg(ex, c, 0), ptrArg(ex, c, 1)
+			case len(c.Args) == 1:
+				src = ptrArg(ex, c, 0)
+				if c.Fn != nil && c.Fn.Signature.Results().Len() == 2 {
+					byValue = true
+				} else {
+					dst = src
+				}
+			}
+			if src == nil || (dst == nil && !byValue) {
 				return nil, false
 			}
 			v, ok := fromLimbs(ex.ReadWords(c.St, src, 4))
@@ -255,6 +269,17 @@ func ReduceSaturated() *Set {
 			} else {
 				ge = sym.App(sym.Bool, "ge:"+srt.String(), v)
 				red = sym.App(sym.Int, "modred:"+srt.String(), v)
+			}
+			if byValue {
+				a := &absint.Agg{Elems: make([]absint.Val, 4)}
+				for i, w := range limbsOf(red) {
+					a.Elems[i] = w
+				}
+				// the position of the flag among the results follows the declaration
+				if bt, isBasic := c.Fn.Signature.Results().At(0).Type().Underlying().(*types.Basic); isBasic && bt.Info()&types.IsInteger != 0 {
+					return absint.Tuple{ge, a}, true
+				}
+				return absint.Tuple{a, ge}, true
 			}
 			ex.WriteWords(c.St, dst, limbsOf(red))
 			return ge, true
